@@ -156,7 +156,7 @@ func (p *srcPlugin) NewStream() pconnector.SourceRunStream { return &builtin.InM
 
 type dstPlugin struct {
 	w      *World
-	name   string // "dst" or "dlq"
+	name   string // "dst", "dst2" or "dlq"
 	opened bool
 }
 
@@ -251,7 +251,7 @@ func (p *dstPlugin) NewStream() pconnector.DestinationRunStream {
 
 type dispenser struct {
 	w    *World
-	kind string // "src" | "dst" | "dlq"
+	kind string // "src" | "dst" | "dst2" | "dlq"
 }
 
 func (d *dispenser) DispenseSpecifier() (connectorPlugin.SpecifierPlugin, error) {
@@ -279,6 +279,7 @@ const (
 	PluginSrc = "fake-src"
 	PluginDst = "fake-dst"
 	PluginDlq = "fake-dlq"
+	PluginDst2 = "fake-dst2"
 )
 
 func (s PluginService) NewDispenser(_ log.CtxLogger, name string, _ string) (connectorPlugin.Dispenser, error) {
@@ -286,7 +287,7 @@ func (s PluginService) NewDispenser(_ log.CtxLogger, name string, _ string) (con
 	switch name {
 	case PluginSrc:
 		s.w.Arrive("dispense.src")
-	case PluginDst:
+	case PluginDst, PluginDst2:
 		s.w.Arrive("dispense.dst")
 	}
 	switch name {
@@ -296,6 +297,8 @@ func (s PluginService) NewDispenser(_ log.CtxLogger, name string, _ string) (con
 		return &dispenser{w: s.w, kind: "dst"}, nil
 	case PluginDlq:
 		return &dispenser{w: s.w, kind: "dlq"}, nil
+	case PluginDst2:
+		return &dispenser{w: s.w, kind: "dst2"}, nil
 	}
 	return nil, fmt.Errorf("fake plugin service: unknown plugin %q", name)
 }
